@@ -1,4 +1,6 @@
 import Asn1Proofs.Properties.C01
+import Asn1Proofs.Properties.C11
+import Asn1Proofs.Properties.C12
 import Asn1Proofs.Properties.C14
 import Asn1Proofs.Properties.C14b
 import Asn1Proofs.Properties.C15
